@@ -13,10 +13,10 @@ MANIFEST = dict(
     text="ResultCursor.tla is the mechanism of Result/ScalarResult/MappingResult (memoized row getters, the unique top-up loop of "
          "_manyrow_getter, _only_one_row, yield_per, partitions, columns, freeze, merge) over the raw layer of every fetch strategy "
          "(default cursor, BufferedRow with growing buffer, FullyBuffered, iterator/chunked/merged/frozen). TLC checks for every family and "
-         "every row sequence of length 0..3 (quick) / 0..4 (thorough) over a 3-row domain with duplicates that each raw row is handed out at "
+         "every row sequence of length 0..3 (quick) / 0..4 (thorough) over a 2-3 row domain with duplicates (and unhashable values) that each raw row is handed out at "
          "most once and in order, that every call returns the declaratively defined visible prefix (projected, de-duplicated), that rows are "
          "skipped only as duplicates or by first()/one()/close(), the exception classes of one()/first()/scalar_one() and that nothing is "
-         "delivered after close. Every labelled edge of these state graphs is then replayed on 13 real implementations in pure-Python mode "
+         "delivered after close. Every labelled edge of these state graphs is then replayed on 11 (quick) / 12 (thorough) real implementations in pure-Python mode "
          "and on the default strategy with the prebuilt compiled _result_cy/_row_cy, comparing each return value / exception class / closed "
          "flag and a final drain.",
     design_ref="3.3, 4 (C10), 6, Appendix G / G.2",
@@ -157,6 +157,23 @@ def _gather(chk, handles):
         for k, v in r["per_impl"].items():
             out["per_impl"][k] = out["per_impl"].get(k, 0) + v
     return out
+
+
+def replay(chk, path):
+    """./check C10 --replay replays/C10/<hash>.json : re-execute the recorded failing walks against the current tree"""
+    with open(path) as f:
+        data = json.load(f)
+    n = still = 0
+    for case in data.get("cases", []):
+        m = case["replay"]
+        if "trace" not in m:
+            continue
+        n += 1
+        bad = rd.rerun(m)
+        if bad:
+            still += 1
+            chk.violation(dict(case["sig"], **(bad[1] or {})), "still diverges: %s [impl %s rows %s]" % (bad[0], m["impl"], json.dumps(m["rows"])), m)
+    return chk.finish(dict(replayed=n, still_diverging=still, samples=[path], rule="recorded failing walks re-executed"), assumptions=[])
 
 
 def main(chk):
